@@ -476,6 +476,45 @@ def classify(unit_name, res, fn_name):
     return "undecided", "function not reported by verus", 0.0, None
 
 
+UNIT_TRUSTS = {}
+
+
+def trusted_items(text):
+    """every assumption the generated unit text contains: external_body functions / types (trusted shims, assumed contracts
+    of dependencies, contracts proved in another unit) and assume_specification targets (assumed std contracts)"""
+    items = []
+    m = rsx.mask(text)
+    for em in re.finditer(r"#\[verifier::external_body\]", m):
+        tail = m[em.end():em.end() + 400]
+        km = re.search(r"\b(fn|struct)\s+(\w+)", tail)
+        if not km:
+            continue
+        name = km.group(2)
+        if km.group(1) == "fn":
+            # enclosing impl / mod, if any (nearest preceding `impl ... {` or `mod x {` at brace depth 1 of verus!{})
+            head = m[:em.start()]
+            im = None
+            for cand in re.finditer(r"^(?:pub\s+)?(?:impl(?:<[^>]*>)?\s+([^{]+?)|mod\s+(\w+))\s*\{", head, re.M):
+                o = cand.end() - 1
+                try:
+                    c = rsx.match_brace(m, o)
+                except Undecided:
+                    continue
+                if c > em.start():
+                    im = (cand.group(1) or cand.group(2)).strip()
+            items.append("fn %s%s" % ((im + "::") if im else "", name))
+        else:
+            items.append("type %s" % name)
+    for am in re.finditer(r"assume_specification\s*(?:<[^\[]*>)?\s*\[\s*([^\]]+?)\s*\]", text):
+        items.append("std contract %s" % " ".join(am.group(1).split()))
+    seen, out = set(), []
+    for i in items:
+        if i not in seen:
+            seen.add(i)
+            out.append(i)
+    return out
+
+
 def run(ctx, obls):
     """obls: registry obligations with extra['unit'] and extra['fn']. One verus run per unit."""
     units = load_units()
@@ -494,10 +533,12 @@ def run(ctx, obls):
             for o in os_:
                 out[o.id] = {"status": "undecided", "reason": "unit %s: %s" % (uname, ex), "backend": "verus 0.2026.09.13 / z3"}
             continue
+        trusted = trusted_items(res["text"])
+        UNIT_TRUSTS[uname] = trusted
         for o in os_:
             st, reason, secs, diag = classify(uname, res, o.extra["fn"])
             oc = {"status": st, "reason": reason, "seconds": round(secs, 3), "backend": "verus 0.2026.09.13 / z3",
-                  "rules_applied": res["counts"], "verus_functions": sorted(res["fn_lines"])}
+                  "rules_applied": res["counts"], "verus_functions": sorted(res["fn_lines"]), "unit": uname}
             if st == "failed":
                 oc["failed_check"] = reason
                 oc["verifier_output"] = (diag or "")[:3000]
